@@ -2,12 +2,12 @@ package main
 
 import (
 	"fmt"
-	"os"
-	"sort"
 	"go/token"
 	"go/types"
 	"math"
 	"math/big"
+	"os"
+	"sort"
 	"strings"
 
 	"golang.org/x/tools/go/ssa"
